@@ -69,7 +69,10 @@ impl CliResult {
 }
 
 /// Runs a command with a wall-clock watchdog (seconds). The watchdog firing is reported, never a verdict by itself.
+/// stdout and stderr are drained by reader threads while waiting (a child blocked on a full pipe would
+/// otherwise look like a hang).
 pub fn run_with_timeout(cmd: &mut Command, timeout_s: u64) -> CliResult {
+    use std::io::Read;
     use std::os::unix::process::ExitStatusExt;
     use std::process::Stdio;
     cmd.stdin(Stdio::null()).stdout(Stdio::piped()).stderr(Stdio::piped());
@@ -85,38 +88,46 @@ pub fn run_with_timeout(cmd: &mut Command, timeout_s: u64) -> CliResult {
             }
         }
     };
+    let mut so = child.stdout.take();
+    let mut se = child.stderr.take();
+    let t_out = std::thread::spawn(move || {
+        let mut b = Vec::new();
+        if let Some(s) = so.as_mut() {
+            let _ = s.read_to_end(&mut b);
+        }
+        b
+    });
+    let t_err = std::thread::spawn(move || {
+        let mut b = Vec::new();
+        if let Some(s) = se.as_mut() {
+            let _ = s.read_to_end(&mut b);
+        }
+        b
+    });
     let start = std::time::Instant::now();
     let mut timed_out = false;
-    loop {
+    let status = loop {
         match child.try_wait() {
-            Ok(Some(_)) => break,
+            Ok(Some(st)) => break Some(st),
             Ok(None) => {
                 if start.elapsed().as_secs() >= timeout_s {
                     let _ = child.kill();
                     timed_out = true;
-                    break;
+                    break child.wait().ok();
                 }
                 std::thread::sleep(std::time::Duration::from_millis(2));
             }
-            Err(_) => break,
+            Err(_) => break None,
         }
-    }
-    let out = child.wait_with_output();
-    match out {
-        Ok(o) => CliResult {
-            code: o.status.code(),
-            signal: o.status.signal(),
-            stderr: String::from_utf8_lossy(&o.stderr).to_string(),
-            stdout: String::from_utf8_lossy(&o.stdout).to_string(),
-            timed_out,
-        },
-        Err(e) => CliResult {
-            code: None,
-            signal: None,
-            stderr: format!("wait failed: {e}"),
-            stdout: String::new(),
-            timed_out,
-        },
+    };
+    let stdout = t_out.join().unwrap_or_default();
+    let stderr = t_err.join().unwrap_or_default();
+    CliResult {
+        code: status.and_then(|s| s.code()),
+        signal: status.and_then(|s| s.signal()),
+        stderr: String::from_utf8_lossy(&stderr).to_string(),
+        stdout: String::from_utf8_lossy(&stdout).to_string(),
+        timed_out,
     }
 }
 
